@@ -1,5 +1,6 @@
 //! Bridge between the model (`vmodel`) and the code under test (`desert`, built from /repo).
 pub mod compiled;
+pub mod conv;
 pub mod dynrec;
 pub mod live;
 
@@ -125,15 +126,25 @@ pub fn decode_with_rest(ty: &Ty, bytes: &[u8]) -> (Result<Val, ErrInfo>, Vec<u8>
     (r, rest)
 }
 
-/// several values written back to back into one SerializationContext
-pub fn encode_many(items: &[(Ty, Val)]) -> Result<Vec<u8>, ErrInfo> {
+/// several values written back to back into one SerializationContext; also returns the values as the serialized
+/// instances present them (hash / ordered containers in their own iteration order)
+pub fn encode_many_written(items: &[(Ty, Val)]) -> (Result<Vec<u8>, ErrInfo>, Vec<Val>) {
     use desert::BinarySerializer;
     live::reset_tls();
     let mut ctx = desert::SerializationContext::new(Vec::new());
+    let mut written = Vec::new();
     for (ty, v) in items {
-        Live::from_val(ty, v).serialize(&mut ctx).map_err(|e| errinfo(&e))?;
+        let l = Live::from_val(ty, v);
+        written.push(l.to_val());
+        if let Err(e) = l.serialize(&mut ctx) {
+            return (Err(errinfo(&e)), written);
+        }
     }
-    Ok(ctx.into_output())
+    (Ok(ctx.into_output()), written)
+}
+
+pub fn encode_many(items: &[(Ty, Val)]) -> Result<Vec<u8>, ErrInfo> {
+    encode_many_written(items).0
 }
 
 pub fn decode_many(tys: &[Ty], bytes: &[u8]) -> (Vec<Result<Val, ErrInfo>>, Vec<u8>) {
